@@ -779,6 +779,84 @@ class FxGraphModule:
         return out
 
 
+# ------------------------------------------------------------------------------------------ networkx (generic digraph operations only)
+class NxDiGraph:
+    """the handful of networkx.DiGraph operations the graph passes use; nodes are arbitrary hashable objects"""
+    def __init__(self):
+        self._succ = {}
+        self._pred = {}
+
+    def add_node(self, n):
+        self._succ.setdefault(n, [])
+        self._pred.setdefault(n, [])
+
+    def add_edge(self, a, b):
+        self.add_node(a)
+        self.add_node(b)
+        if b not in self._succ[a]:
+            self._succ[a].append(b)
+            self._pred[b].append(a)
+
+    @property
+    def nodes(self):
+        return list(self._succ.keys())
+
+    @property
+    def edges(self):
+        return [(a, b) for a, bs in self._succ.items() for b in bs]
+
+    def predecessors(self, n):
+        return iter(list(self._pred[n]))
+
+    def successors(self, n):
+        return iter(list(self._succ[n]))
+
+    def remove_edge(self, a, b):
+        if b not in self._succ.get(a, []):
+            raise KeyError('edge not in graph')
+        self._succ[a].remove(b)
+        self._pred[b].remove(a)
+
+    def remove_node(self, n):
+        for b in list(self._succ[n]):
+            self._pred[b].remove(n)
+        for a in list(self._pred[n]):
+            self._succ[a].remove(n)
+        del self._succ[n]
+        del self._pred[n]
+
+    def __contains__(self, n):
+        return n in self._succ
+
+    def __len__(self):
+        return len(self._succ)
+
+
+def nx_weakly_connected_components(g):
+    seen = set()
+    out = []
+    for start in g.nodes:
+        if start in seen:
+            continue
+        comp = []
+        stack = [start]
+        seen.add(start)
+        while stack:
+            x = stack.pop()
+            comp.append(x)
+            for y in g._succ[x] + g._pred[x]:
+                if y not in seen:
+                    seen.add(y)
+                    stack.append(y)
+        out.append(comp)
+    return iter([OrderedNodeSet(c) for c in out])
+
+
+class OrderedNodeSet(list):
+    """a connected component (networkx returns a set; iteration order is the only difference)"""
+    pass
+
+
 # ------------------------------------------------------------------------------------------ install
 def install(interp):
     B = I.InterpBuiltin
@@ -1062,7 +1140,7 @@ def install(interp):
         'items': lambda it, s: s.attrs['data'].items(), 'get': ud_get})
     interp.libs.update({'torch': torch, 'math': mathns, 'numpy': np, 'itertools': itertools, 'copy': copyns, 'typing': typing,
                         'warnings': warnings, 'abc': abc, 'enum': enum, 'operator': operator, 'functools': functools,
-                        'enum_Enum': ENUM, 'networkx': I.Missing('networkx'), 'os': I.Missing('os'), 'sys': I.Missing('sys'),
+                        'enum_Enum': ENUM, 'networkx': I.NS('networkx', DiGraph=NxDiGraph, weakly_connected_components=nx_weakly_connected_components), 'os': I.Missing('os'), 'sys': I.Missing('sys'),
                         'collections': I.NS('collections', OrderedDict=dict, defaultdict=I.Missing('defaultdict'), UserDict=USERDICT)})
     interp.builtins = make_builtins(interp)
 
